@@ -2,6 +2,7 @@ package gen
 
 import (
 	"math"
+	"regexp"
 
 	"pgregory.net/rapid"
 
@@ -11,11 +12,11 @@ import (
 // CritEnv is what a criteria generator knows about its target.
 type CritEnv struct {
 	Val        ValCfg
-	Fields     []string      // candidate leaf fields
-	Hot        []string      // fields to favour (e.g. the indexed ones)
-	Values     []interface{} // values present in the collection (to hit bounds exactly)
+	Fields     []string                 // candidate leaf fields
+	Hot        []string                 // fields to favour (e.g. the indexed ones)
+	Values     []interface{}            // values present in the collection (to hit bounds exactly)
 	ValuesOf   map[string][]interface{} // values present under each field (pairs on one field hit its own bounds)
-	NoFieldRef bool          // no Field()/"$name" operands
+	NoFieldRef bool                     // no Field()/"$name" operands
 	NoFunc     bool
 	NoLike     bool
 	Bad        bool // occasionally an operand that cannot be normalised
@@ -155,6 +156,17 @@ func (e *CritEnv) Leaf(t *rapid.T) *cs.Crit {
 		if rapid.IntRange(0, 2).Draw(t, "fresh-pattern") == 0 {
 			// a pattern that has (most likely) never been used before in this process
 			c.Pattern = rapid.StringMatching(`[abé]{0,2}(\.\*|\|[a-c]{1,4}|[a-c]{1,3})`).Draw(t, "pattern-fresh")
+		}
+		if vs := e.ValuesOf[f]; len(vs) > 0 && rapid.IntRange(0, 2).Draw(t, "anchored-pattern") == 0 {
+			// anchored at a literal prefix of a string stored under this very field (the shape a
+			// planner could serve from an index range): "^" + the first 1-2 bytes, optionally ".*"
+			if s, ok := rapid.SampledFrom(vs).Draw(t, "pattern-of").(string); ok && len(s) > 0 && s[0] < 0x80 {
+				n := 1
+				if len(s) > 1 && s[1] < 0x80 && rapid.Bool().Draw(t, "prefix2") {
+					n = 2
+				}
+				c.Pattern = "^" + regexp.QuoteMeta(s[:n]) + rapid.SampledFrom([]string{"", ".*"}).Draw(t, "pattern-tail")
+			}
 		}
 	case "func":
 		c.Field = ""
